@@ -61,7 +61,9 @@ class AgentSim(sysrun.SymSim):
                     yield self.mosaik.set_data({f'{self.sid}.e': {f'{target}.e': {'im': val}}})
                 except RemoteException as e:
                     mon.remote_refused(self.sid, 'set', time, e)
-                    raise
+                    if not CTX.get('tolerant'):
+                        raise
+                    continue     # a tolerant agent notes the refusal and carries on
                 mon.did_set(self.sid, time, target, val)
         if self.typ == 'event-based':
             return None     # an idle agent: stepped only when triggered
@@ -142,6 +144,10 @@ class Monitor:
                 # (1) exactly the values set since A's previous step, under the right source, once
                 exp = {k[1]: v for k, v in self.pending.items() if k[0] == 'A'}
                 got = {k: v for k, v in inputs.get('e', {}).get('im', {}).items() if k.split('.')[0] in self.allowed}
+                foreign = {k: v for k, v in inputs.get('e', {}).get('im', {}).items() if k.split('.')[0] in self.agents and k.split('.')[0] not in self.allowed}
+                if foreign:
+                    eng.alarm('C16.notrefused', f'A@{time}: inputs carry {foreign}, set by an agent without an async_requests connection (its request was refused)',
+                              {'fp': ['foreign']})
                 if exp != got:
                     eng.alarm('C16.data', f'A@{time}: set_data values expected {exp}, inputs carry {got}', {'fp': ['data']})
                 for k in [k for k in self.pending if k[0] == 'A']:
@@ -181,7 +187,7 @@ def async_run(n_agents, unconnected, cfg, data_edge=False, triggered=False, feed
         CTX.clear()
         CTX.update(eng=eng, loop=loop, K=cfg.get('K', 2), until=until, ref=None, log=log, sync=set(cfg.get('sync', ())),
                    hook=mon.hook, mon=mon, targets={}, requests_per_step=cfg.get('requests_per_step', 1), bounded_times=True,
-                   no_get=cfg.get('no_get', False), concurrent=cfg.get('concurrent', False))
+                   no_get=cfg.get('no_get', False), concurrent=cfg.get('concurrent', False), tolerant=cfg.get('tolerant', False))
         outcome, exc = None, None
         with sysrun.patched(salt=cfg.get('salt', 0)), remote_ctx():
             w = mosaik.World({'S': {'python': 'vk.sysrun:SymSim'}, 'G': {'python': 'vk.kernels.c16:AgentSim'},
@@ -257,7 +263,7 @@ def jobs(tier):
     out = []
 
     def add(n_agents, unconnected, K, until, syncs, caches=(True, False), data_edge=False, rps=1, D=0, split=None, no_get=False, lazy=True,
-            triggered=False, feeder=False, remote=(), concurrent=False):
+            triggered=False, feeder=False, remote=(), concurrent=False, tolerant=False):
         for sync in syncs:
             for cache in caches:
                 cfg = {'until': until, 'K': K, 'cache': cache, 'lazy': lazy, 'D': D, 'sync': sync, 'requests_per_step': rps, 'no_get': no_get}
@@ -265,7 +271,9 @@ def jobs(tier):
                     cfg['remote'] = list(remote)
                 if concurrent:
                     cfg['concurrent'] = True
-                j = {'id': ('' if not remote else f"remote={''.join(remote)}|") + ('conc|' if concurrent else '') + f"async|n={n_agents}|x={unconnected}|K={K}|until={until}|sync={''.join(sync) or '-'}|cache={int(cache)}|de={data_edge if isinstance(data_edge, str) else int(data_edge)}|rps={rps}|D={D}|ng={int(no_get)}|lazy={int(lazy)}|trig={int(triggered)}|feed={int(feeder)}",
+                if tolerant:
+                    cfg['tolerant'] = True
+                j = {'id': ('' if not remote else f"remote={''.join(remote)}|") + ('conc|' if concurrent else '') + ('tol|' if tolerant else '') + f"async|n={n_agents}|x={unconnected}|K={K}|until={until}|sync={''.join(sync) or '-'}|cache={int(cache)}|de={data_edge if isinstance(data_edge, str) else int(data_edge)}|rps={rps}|D={D}|ng={int(no_get)}|lazy={int(lazy)}|trig={int(triggered)}|feed={int(feeder)}",
                      'harness': 'vk.kernels.c16:async_run',
                      'params': {'n_agents': n_agents, 'unconnected': unconnected, 'cfg': cfg, 'data_edge': data_edge, 'triggered': triggered, 'feeder': feeder},
                      'budget_s': 300}
@@ -295,6 +303,9 @@ def jobs(tier):
     add(1, None, 2, 3, [['A', 'B']], caches=(True,), remote=['B'])
     add(1, None, 2, 3, [['A', 'B']], caches=(False,), remote=['A', 'B'])
     add(1, 'none', 2, 2, [['A', 'B', 'X']], caches=(True,), remote=['X'])
+    # a remote agent without an async connection that notes the refusal and carries on: nothing of the refused call may arrive
+    add(1, 'none', 2, 3, [['A', 'B', 'X']], caches=(True,), remote=['X'], tolerant=True, no_get=True)
+    add(1, 'plain', 2, 3, [['A', 'B', 'X']], caches=(False,), remote=['X'], tolerant=True, no_get=True)
     # two set_data requests of one simulator in flight at once (two source ids)
     add(1, None, 2, 3, [['A', 'B']], caches=(True,), remote=['B'], concurrent=True, no_get=True)
     add(1, None, 2, 3, [[]], caches=(True,), concurrent=True, no_get=True)
